@@ -10,6 +10,7 @@ import (
 	"strconv"
 	"strings"
 	"sync"
+	"sync/atomic"
 )
 
 type Sort int
@@ -44,7 +45,7 @@ type Term struct {
 	Sort Sort
 	Name string   // for Op=="const"
 	Val  *big.Int // for Op=="int"
-	str  string   // cached rendering
+	strp atomic.Pointer[string] // cached rendering (terms are shared between goroutines)
 	id   int64
 }
 
@@ -104,8 +105,8 @@ func (t *Term) isTrue() bool  { return t.Op == "true" }
 func (t *Term) isFalse() bool { return t.Op == "false" }
 
 func (t *Term) String() string {
-	if t.str != "" {
-		return t.str
+	if p := t.strp.Load(); p != nil {
+		return *p
 	}
 	var s string
 	switch t.Op {
@@ -134,7 +135,7 @@ func (t *Term) String() string {
 		b.WriteByte(')')
 		s = b.String()
 	}
-	t.str = s
+	t.strp.Store(&s)
 	return s
 }
 
